@@ -23,3 +23,29 @@ pub fn succ_f64(x: f64) -> f64 {
         f64::from_bits(b + 1)
     }
 }
+
+/// Plumbing component type: every angle operation is a distinct injective-looking affine map on u32, so that the
+/// composition order of generic accessor code is decided by plain bit-vector reasoning (no float circuits).
+#[derive(Clone, Copy, PartialEq, Eq, Debug)]
+pub struct Tag(pub u32);
+
+impl Tag {
+    pub fn r2d(self) -> Tag { Tag(self.0.wrapping_mul(7).wrapping_add(3)) }
+    pub fn d2r(self) -> Tag { Tag(self.0.wrapping_mul(11).wrapping_add(5)) }
+    pub fn ns(self) -> Tag { Tag(self.0.wrapping_mul(13).wrapping_add(1)) }
+    pub fn nu(self) -> Tag { Tag(self.0.wrapping_mul(17).wrapping_add(2)) }
+}
+
+impl palette::num::Real for Tag {
+    fn from_f64(n: f64) -> Self { Tag(n as u32) }
+}
+impl palette::angle::RealAngle for Tag {
+    fn radians_to_degrees(self) -> Self { self.r2d() }
+    fn degrees_to_radians(self) -> Self { self.d2r() }
+}
+impl palette::angle::SignedAngle for Tag {
+    fn normalize_signed_angle(self) -> Self { self.ns() }
+}
+impl palette::angle::UnsignedAngle for Tag {
+    fn normalize_unsigned_angle(self) -> Self { self.nu() }
+}
